@@ -10,7 +10,7 @@ pub(crate) mod testing;
 
 use std::collections::{HashMap, HashSet};
 use std::fs::File;
-use std::io::{BufRead, BufReader};
+use std::io::{BufReader, Read};
 use std::path;
 use std::result::Result;
 use std::str::FromStr;
@@ -108,14 +108,18 @@ impl Config {
                 e
             ))
         })?;
+        // Read the file to its end; a single `fill_buf` only yields the first
+        // buffer's worth (8 KiB) of a larger file.
         let mut buf_reader = BufReader::new(file);
-        let buf = buf_reader.fill_buf().map_err(|e| {
+        let mut data = Vec::new();
+        buf_reader.read_to_end(&mut data).map_err(|e| {
             MonorailError::Generic(format!(
                 "Could not read configuration file data at {}; {}",
                 file_path.display(),
                 e
             ))
         })?;
+        let buf = data.as_slice();
         let mut hasher = sha2::Sha256::new();
         hasher.update(buf);
 
